@@ -210,9 +210,61 @@ func concLRU(args []string) int {
 			w.emit(&evs[i])
 		}
 	}
+	// storm: every operation must return.  Readers of each read-only accessor run flat out against writers of every kind
+	// on one small cache (nothing is recorded; a cache that stops answering is the finding - a read lock taken twice, a
+	// lock kept on one path, show only when a writer arrives in between).
+	if hung := lruStorm(r.Intn(1000)); hung {
+		w.close()
+		fmt.Printf("{\"histories\": %d, \"events\": %d, \"hang\": true}\n", *nh+*nhot, w.n)
+		os.Exit(0)
+	}
 	w.close()
 	fmt.Printf("{\"histories\": %d, \"events\": %d}\n", *nh, w.n)
 	return 0
+}
+
+func lruStorm(salt int) bool {
+	c := cache.NewLRUCache(4, time.Hour)
+	sc := cache.NewSearchCache(4, time.Hour)
+	var stop int32
+	var wg sync.WaitGroup
+	run := func(f func(i int)) {
+		wg.Add(1)
+		go func() {
+			defer wg.Done()
+			for i := 0; atomic.LoadInt32(&stop) == 0; i++ {
+				f(i)
+			}
+		}()
+	}
+	key := func(i int) string { return strconv.Itoa((i + salt) % 7) }
+	for n := 0; n < 3; n++ {
+		run(func(i int) { c.Stats(); sc.Stats() })
+		run(func(i int) { c.Size(); c.Capacity(); c.Keys() })
+	}
+	for n := 0; n < 3; n++ {
+		run(func(i int) { c.Put(key(i), i); c.Get(key(i + 1)) })
+	}
+	run(func(i int) { c.Delete(key(i)); c.CleanupExpired() })
+	run(func(i int) {
+		if i%64 == 0 {
+			c.Clear()
+			sc.Invalidate()
+		}
+		sc.Put(key(i), cache.SearchOptions{}, []cache.SearchResult{{Command: "c"}})
+		sc.Get(key(i+1), cache.SearchOptions{})
+		sc.Size()
+	})
+	time.Sleep(1500 * time.Millisecond)
+	atomic.StoreInt32(&stop, 1)
+	finished := make(chan struct{})
+	go func() { wg.Wait(); close(finished) }()
+	select {
+	case <-finished:
+		return false
+	case <-time.After(30 * time.Second):
+		return true
+	}
 }
 
 type csEv struct {
